@@ -251,6 +251,16 @@ def check_value(ctx, iso, family, value, scale):
         loader.check_all_set()
     except AssertionError:
         ctx.fail("dispatcher-leaves-a-family-unset", "%s=%s" % (family, value), case)
+    # ... and nothing else: against the same dictionary with this family at its baseline value, only constants that one of the two
+    # setters of this family is documented to write may differ
+    base_value = base_options(scale).get(family)
+    if value != base_value and base_value in RO.DISPATCH.get(family, {}):
+        c0, tc0, _ = dispatch(iso, base_options(scale))
+        allowed = list(spec["writes"]) + list(RO.SETTERS[RO.DISPATCH[family][base_value]]["writes"])
+        stray = [k for k in RO.diff_keys(RO.flatten(c0, tc0), flat) if not RO.allowed(k, allowed) and not k.endswith(".__dict__")]
+        if stray:
+            ctx.fail("option-value-changes-constants-outside-its-family", "%s=%s instead of %s also changes %s" % (family, value, base_value, stray[:6]), case)
+        ctx.event("value_differential")
     if value != base_options(scale).get(family):
         ctx.nontrivial_case(case)
     ctx.event("value_accepted")
